@@ -58,9 +58,14 @@ using namespace mon;
 uint32_t mon_fsr_bits[256];
 
 extern "C" {
+void race_exclude(uintptr_t a, uintptr_t b) __attribute__((weak));
 
 void mon_jls_mrb_init(struct jls_mrb_s *self, uint8_t *buffer, uint32_t buffer_size) {
     jls_mrb_init(self, buffer, buffer_size);
+    if (race_exclude) {     // control fields in front of the queue inside the jls_twr_s block are out of scope (volatile flags, tickets, size table)
+        uintptr_t base = 0; size_t size = 0; uint64_t id = 0;
+        if (simalloc::find_block(self, &base, &size, &id)) race_exclude(base, (uintptr_t) self);
+    }
     refq.clear(); reset_model_head();
 }
 
